@@ -745,6 +745,11 @@ func (e *Env) call(n *CCall) CV {
 			return CV{K: constant.MakeInt64(u.Len())}
 		case *types.Map:
 			return CV{T: sx("select", g.heapGet(e.st, g.mapLenKey(v.Ty), "(Array Int Int)"), v.T), Ty: intT}
+		case *types.Chan:
+			if n.Fun == "cap" {
+				cs := fmt.Sprintf("(Array Int %s)", g.idxSort())
+				return CV{T: sx("select", g.heapGet(e.st, "CC:cap", cs), v.T), Ty: intT}
+			}
 		}
 		panic(cerr("len of %s", v.Ty))
 	case "ite":
